@@ -14,7 +14,11 @@ func init() { All["C05"] = c05 }
 // request against a node record: the module callee taking (*NodeInformation,
 // *GenerateServerCertificatesRequest) and returning error.
 func verifierOf(gsc *ssa.Function) *ssa.Function {
-	for _, cal := range calleesInModule(gsc) {
+	var cands []*ssa.Function
+	for _, f := range core.DeepFuncs(gsc, core.MaxSummaryDepth) {
+		cands = append(cands, calleesInModule(f)...)
+	}
+	for _, cal := range cands {
 		if paramOfType(cal, typesPkg, "NodeInformation") != nil &&
 			paramOfType(cal, typesPkg, "GenerateServerCertificatesRequest") != nil &&
 			core.ErrorResultIndex(cal.Signature) == 0 && cal.Signature.Results().Len() == 1 {
@@ -37,20 +41,29 @@ func c05Gate(c *Ctx, rule string, gsc *ssa.Function) (core.Guard, *ssa.Function,
 		return core.Guard{}, nil, nil, false
 	}
 	r.Fn(core.FuncName(verify))
-	vcalls := callsTo(gsc, verify)
+	sites := core.DeepFind(gsc, core.MaxSummaryDepth, func(in ssa.Instruction) bool {
+		c, ok := in.(*ssa.Call)
+		return ok && c.Common().StaticCallee() == verify
+	})
+	var vcalls []*ssa.Call
 	approved := map[*ssa.Call]bool{}
-	for i, vc := range vcalls {
+	for i, site := range sites {
+		vc := site.Instr.(*ssa.Call)
+		vcalls = append(vcalls, vc)
+		r.Fn(core.FuncName(site.Fn))
 		construct := fmt.Sprintf("tls.GenerateServerCertificates verify-call#%d record-provenance", i)
-		rec, rq := vc.Call.Args[0], vc.Call.Args[1]
-		okReq := core.Strip(rq) == req
-		src, okRec := c05RecordSource(rec, req)
-		if okReq && okRec {
-			approved[vc] = true
-			r.OK(rule+"/record", construct, p.Pos(vc.Pos()), "verified record comes from "+src+" and the verified request is the function's request parameter")
-		} else {
-			r.Bad(rule+"/record", construct, p.Pos(vc.Pos()),
-				fmt.Sprintf("verification is not against a record loaded from storage for this request (record source ok=%v: %s; request is parameter=%v)", okRec, src, okReq))
-		}
+		site.In(func() {
+			rec, rq := vc.Call.Args[0], vc.Call.Args[1]
+			okReq := core.Strip(rq) == req
+			src, okRec := c05RecordSource(rec, req)
+			if okReq && okRec {
+				approved[vc] = true
+				r.OK(rule+"/record", construct, p.Pos(vc.Pos()), "verified record comes from "+src+" and the verified request is the function's request parameter")
+			} else {
+				r.Bad(rule+"/record", construct, p.Pos(vc.Pos()),
+					fmt.Sprintf("verification is not against a record loaded from storage for this request (record source ok=%v: %s; request is parameter=%v)", okRec, src, okReq))
+			}
+		})
 	}
 	if len(vcalls) == 0 {
 		r.Unk(rule, "tls.GenerateServerCertificates verify-calls", p.Pos(gsc.Pos()), "no call to the verification helper found")
@@ -175,11 +188,15 @@ func c05(c *Ctx) {
 	c05Verifier(c, verify)
 
 	// R-C05.4 preconditions
-	for i, vc := range vcalls {
+	vsites := core.DeepFind(gsc, core.MaxSummaryDepth, func(in ssa.Instruction) bool {
+		c, ok := in.(*ssa.Call)
+		return ok && c.Common().StaticCallee() == verify
+	})
+	for i, site := range vsites {
 		for _, f := range []string{"Nonce", "NonceSignature"} {
 			g := core.NonEmpty("req."+f, core.FieldOf(req, f))
-			res := core.CutReach(p, gsc, g, vc.Block())
-			r.CutOb(p, "R-C05.4", fmt.Sprintf("tls.GenerateServerCertificates verify-call#%d needs non-empty %s", i, f), p.Pos(vc.Pos()), res, g)
+			res := core.CutDeep(p, gsc, g, site)
+			r.CutOb(p, "R-C05.4", fmt.Sprintf("tls.GenerateServerCertificates verify-call#%d needs non-empty %s", i, f), p.Pos(site.Instr.Pos()), res, g)
 		}
 	}
 }
